@@ -131,7 +131,7 @@ func inEntity(entry string, ent string) bool { return strings.HasPrefix(entry, e
 
 func (m *machine) subscribe(t *rapid.T) {
 	c := regs.DrawCall(t, m.w, "sub")
-	if m.w.Peers[c.Peer].Gone || (m.ent2Gone[c.Peer] && c.Client.Ent[0] == 2) {
+	if m.w.Peers[c.Peer].Gone || (m.ent2Gone[c.Peer] && len(c.Client.Ent) == 1 && c.Client.Ent[0] == 2) {
 		t.Skip("gone")
 	}
 	_, ok := m.w.Do(c, world.SubscribeCall(m.w.ClientAddr(c), m.w.ServerAddr(c), c.Type))
@@ -141,7 +141,7 @@ func (m *machine) subscribe(t *rapid.T) {
 
 func (m *machine) bind(t *rapid.T) {
 	c := regs.DrawCall(t, m.w, "bind")
-	if m.w.Peers[c.Peer].Gone || (m.ent2Gone[c.Peer] && c.Client.Ent[0] == 2) {
+	if m.w.Peers[c.Peer].Gone || (m.ent2Gone[c.Peer] && len(c.Client.Ent) == 1 && c.Client.Ent[0] == 2) {
 		t.Skip("gone")
 	}
 	_, ok := m.w.Do(c, world.BindCall(m.w.ClientAddr(c), m.w.ServerAddr(c), c.Type))
@@ -466,6 +466,44 @@ func (m *machine) lateResponse(t *rapid.T) {
 	}
 }
 
+// announceLate: a peer that was connected only sends its discovery reply now (what it subscribed
+// or bound before stays what it is).
+func (m *machine) announceLate(t *rapid.T) {
+	var silent []int
+	for i, p := range m.w.Peers {
+		if !p.Gone && p.Ents == nil {
+			silent = append(silent, i)
+		}
+	}
+	if len(silent) == 0 {
+		t.Skip("every connected peer has announced itself")
+	}
+	pi := silent[rapid.IntRange(0, len(silent)-1).Draw(t, "peer")]
+	before := map[int]snap{}
+	for i := range m.w.Peers {
+		before[i] = m.snapshot(i)
+	}
+	p := m.w.Peers[pi]
+	p.Announce(regs.PeerEntities())
+	if rapid.Bool().Draw(t, "answersCoreRequests") {
+		p.AnswerCoreRequests()
+		p.Cap.Drain()
+	}
+	m.w.Events.Drain()
+	m.logf("peer%d announces itself (had %+v)", pi+1, before[pi])
+	m.ops = append(m.ops, "announce-late")
+	world.Label("op/announce-late")
+	for i := range m.w.Peers {
+		if m.w.Peers[i].Gone {
+			continue
+		}
+		after := m.snapshot(i)
+		if !reflect.DeepEqual(nz(before[i].Subs), nz(after.Subs)) || !reflect.DeepEqual(nz(before[i].Binds), nz(after.Binds)) {
+			world.Fail(t, "C10/other-peer-lost-state/late-announcement/registry", "the late announcement of peer%d changed the registry entries of peer%d\n before: %+v\n after:  %+v%s", pi+1, i+1, before[i], after, m.history())
+		}
+	}
+}
+
 // reconnect: the device of a removed connection connects again (same SKI and address, a new
 // connection) and announces itself. The old connection stays removed and watched.
 func (m *machine) reconnect(t *rapid.T) {
@@ -629,6 +667,7 @@ func TestTeardown(t *testing.T) {
 			"entityReannounced": m.entityReannounced,
 			"lateResponse":      m.lateResponse,
 			"reconnect":         m.reconnect,
+			"announceLate":      m.announceLate,
 		})
 		// let every approval timer expire, then change data once more: the removed connections
 		// must have stayed silent
